@@ -1,5 +1,6 @@
 """min-lattice dataflow: step lengths returned by the cones are bounded by their alpha_max
 argument (shared by C07.R2 and C15.R1/R2/R3/R4)"""
+import re
 from engine.mir import last_seg, show, AnchorError, strip_generics
 from engine.preds import canon, Walker
 from .common import *
@@ -342,6 +343,37 @@ def nn_ratio_test(rep, F, tag, rid):
         R.check(n >= 4, 'paths' + tag, 'only %d iteration paths of NonnegativeCone::step_length analysed' % n, f.loc())
         r0 = [str(ret[1]) for val, ret, ev, tr in Walker(f, cut_loops=True).leaves() if ret[0] == 's']
         R.check(r0 == ['tuple(var:αz, var:αs)'], 'returns' + tag, 'NonnegativeCone::step_length returns %s' % r0, f.loc())
+
+    R.guard(body)
+
+
+def soc_stable_root(rep, F, tag, rid):
+    """The limiting root of a x^2 + b x + c is formed as t = -b -/+ sqrt(d), r1 = 2c/t, r2 = t/(2a).  Only the variant in which -b and
+    the square root have the *same sign* is free of cancellation: with the other pairing the root is rounded away whenever
+    4ac << b^2 (a direction almost on the boundary of -K) and the step overshoots the cone.  An ordering property, like the two-stage shift."""
+    R = rep.rule(rid, 'second-order cone: the quadratic root is formed without cancellation (t = -b - sqrt(d) iff b >= 0, -b + sqrt(d) otherwise)')
+
+    def body():
+        f = F.one(name='_step_length_soc_component')
+        n = 0
+        for val, ret, ev, tr in Walker(f, local_stores=True).leaves():
+            ts = [str(e[2]) for e in ev if e[0] == 'assign' and e[1] == 't' and e[2] is not None]
+            for t in ts:
+                m = re.fullmatch(r'(sub|add)\(neg\((.*)\), sqrt\((.*)\)\)', t)
+                if not R.check(m is not None and m.group(2).count('(') == m.group(2).count(')'), 'root-shape' + tag, 'the root helper t is %s, expected -b -/+ sqrt(d)' % t[:100], f.loc()):
+                    continue
+                op, B = m.group(1), m.group(2)
+                sgn = None
+                for k, v in val.items():
+                    if k in ('le(zero(), %s)' % B, 'lt(zero(), %s)' % B):
+                        sgn = 'nonneg' if v == 1 else 'neg'
+                    if k in ('le(%s, zero())' % B, 'lt(%s, zero())' % B):
+                        sgn = 'neg' if v == 1 else 'nonneg'
+                n += 1
+                R.check(sgn is not None and (op == 'sub') == (sgn == 'nonneg'), 'no-cancellation|%s%s' % (op, tag),
+                        'on a path where b is %s the root helper is -b %s sqrt(d): -b and the square root then have opposite signs and cancel (the limiting root loses all '
+                        'digits when 4ac << b^2); choose the sign that adds magnitudes' % ({'nonneg': '>= 0', 'neg': '< 0', None: 'of undecided sign'}[sgn], '-' if op == 'sub' else '+'), f.loc())
+        R.check(n >= 2, 'paths' + tag, 'only %d root computations analysed' % n)
 
     R.guard(body)
 
